@@ -762,7 +762,10 @@ func inF25(c *EWCase) bool {
 	if c.Mode == "unsafe" || c.Mode == "incr" {
 		return true
 	}
-	return c.Form == "ST" && !c.A.L.IsContig()
+	// (scalar on the left: the kernel walks a compact copy with the operand's own offsets - a panic when the
+	// operand is a view with gaps; a lazily transposed whole tensor, whose offsets are a permutation of the
+	// copy's, is computed correctly and lies outside the region)
+	return c.Form == "ST" && !c.A.L.IsContig() && !c.A.L.onlyTransposed()
 }
 
 // inF39 is the region of known finding F39: float32/float64 division with a
